@@ -299,27 +299,32 @@ class TopLevelVisitor(ast.NodeVisitor):
         Args:
             node (ast.If):
         """
-        if isinstance(node.test, ast.Compare):  # pragma: nobranch
-            try:
-                if IS_PY_GE_312:
-                    if all([
-                        isinstance(node.test.ops[0], ast.Eq),
-                        node.test.left.id == '__name__',
-                        node.test.comparators[0].value == '__main__',
-                    ]):
-                        # Ignore main block
-                        return
-                else:
-                    if all([
-                        isinstance(node.test.ops[0], ast.Eq),
-                        node.test.left.id == '__name__',
-                        node.test.comparators[0].s == '__main__',
-                    ]):
-                        # Ignore main block
-                        return
-            except Exception:  # nocover
-                pass
+        if self._is_main_guard(node.test):
+            # Ignore the main block (written either way around), but not
+            # what the module defines otherwise
+            for child in node.orelse:
+                self.visit(child)
+            return
         self.generic_visit(node)  # nocover
+
+    @staticmethod
+    def _is_main_guard(test):
+        """
+        Args:
+            test (ast.AST): the condition of an if statement
+
+        Returns:
+            bool: True for ``__name__ == '__main__'`` and its mirror image
+        """
+        if not isinstance(test, ast.Compare):
+            return False
+        if len(test.ops) != 1 or not isinstance(test.ops[0], ast.Eq):
+            return False
+        sides = [test.left, test.comparators[0]]
+        names = [side.id for side in sides if isinstance(side, ast.Name)]
+        values = [side.value if hasattr(side, 'value') else getattr(side, 's', None)
+                  for side in sides if not isinstance(side, ast.Name)]
+        return names == ['__name__'] and values == ['__main__']
 
     # def visit_ExceptHandler(self, node):
     #     pass
